@@ -211,10 +211,10 @@ func (m *fakeMsg) anyField() bool {
 	return any
 }
 
-func (m *fakeMsg) ProtoReflect() protoreflect.Message                                { return m }
-func (m *fakeMsg) Interface() protoreflect.ProtoMessage                              { return m }
-func (m *fakeMsg) Descriptor() protoreflect.MessageDescriptor                        { return m.desc }
-func (m *fakeMsg) IsValid() bool                                                     { return m != nil }
+func (m *fakeMsg) ProtoReflect() protoreflect.Message         { return m }
+func (m *fakeMsg) Interface() protoreflect.ProtoMessage       { return m }
+func (m *fakeMsg) Descriptor() protoreflect.MessageDescriptor { return m.desc }
+func (m *fakeMsg) IsValid() bool                              { return m != nil }
 func (m *fakeMsg) Range(f func(protoreflect.FieldDescriptor, protoreflect.Value) bool) {
 	if m.desc == nil {
 		return
@@ -291,7 +291,7 @@ type toyCodec struct {
 	text        bool
 	failMarshal bool
 	log         *[]string
-	repeat      int // text form writes every byte this many times (a codec whose re-encoded form is much larger)
+	repeat      int  // text form writes every byte this many times (a codec whose re-encoded form is much larger)
 	fields      bool // messages are carried as their string fields (REST binding harnesses) instead of abstract bytes
 }
 
@@ -678,10 +678,16 @@ func verifModel_connectrpc_com_vanguard_getHTTPRuleExtension(desc protoreflect.M
 // Reflection-driven protobuf libraries have no encodable core: reaching them ends the path as a
 // recorded cut (never a pass, never a violation).
 func verifModel_google_golang_org_protobuf_encoding_protojson_UnmarshalOptions_Unmarshal(o protojson.UnmarshalOptions, b []byte, m proto.Message) error {
+	if bv, ok := protojsonBV(m); ok {
+		return bvJSONUnmarshal(b, bv)
+	}
 	verifOutside("protojson.Unmarshal (protobuf reflection) is outside the encoding")
 	return nil
 }
 func verifModel_google_golang_org_protobuf_encoding_protojson_MarshalOptions_MarshalAppend(o protojson.MarshalOptions, b []byte, m proto.Message) ([]byte, error) {
+	if bv, ok := protojsonBV(m); ok {
+		return bvJSONMarshal(b, bv), nil
+	}
 	verifOutside("protojson.Marshal (protobuf reflection) is outside the encoding")
 	return nil, nil
 }
